@@ -14,9 +14,11 @@ TRUSTED = [
 ASSUMPTIONS = [
     "statement granularity = CPython `line` trace events; pre-emption inside a statement (bytecode level) and the GIL hand-off are not modelled",
     "no mutation of an rruleset while iterators are live (that is C10's history domain)",
-    "the positive theorems assume the underlying generator (`self._iter()`) never raises anything but StopIteration (SInv.noraise); the raising outcome of "
-    "line 138 IS modelled (Cache.step138) and the negation is proved on the model (genraise_cached_differs): known finding D-C11-genraise, "
-    "accepted only where implementation = model (oracle case generator_raises, op query.runx)",
+    "a generator that raises something other than StopIteration is covered (Shared.endErr; finished_answer / genraise_history): it is assumed to be "
+    "DETERMINISTIC (a fresh `self._iter()` yields the same values and raises at the same position — what `_restartable` relies on when it "
+    "replaces the dead generator); on the raising path the handler statements `except Exception: if i == len(cache): raise` are one model step "
+    "with the raise (they touch only locals and the lock), so thread schedules over raising generators are judged against the uncached answers "
+    "(oracle generator_raises), not compared line by line with the model",
 ]
 RULE = ("schedules: (a) every next()-interleaving with <= 2 (thorough 3) switches of 2-3 iterators over src lengths 0,1,9,10,11,19,20,21; "
         "(b) statement granularity: 2 threads, every single pre-emption point k0, a grid of (k0,k1) double pre-emptions, 3 threads with 2 "
@@ -343,7 +345,18 @@ def history_correspondence(ctx, rng, count):
         fac, L = mk(kind, n)
         cache = rng.random() < (0.7 if i % 3 else 0.3)
         rule = fac(cache)
-        if i % 3 == 0:
+        if i % 5 == 4:
+            # a PARTLY filled cache (the fill batch is 10), then every kind of query that must see the whole sequence: negative
+            # indices and slices (list path), count(), a far `in`, the last element
+            n = rng.choice([12, 15, 21, 25, 31])
+            fac, L = mk(kind, n)
+            cache = rng.random() < 0.85
+            rule = fac(cache)
+            part = rng.choice([("take", rng.choice([1, 9, 10, 11, 19, 20])), ("idx", rng.choice([0, 5, 10])), ("aft", L[rng.choice([0, 8, 10])], False)])
+            kinds = [("idx", -1), ("idx", -n), ("idx", -n - 1), ("idx", -2), ("sl", -3, None, None), ("sl", None, None, -1), ("sl", -5, -1, 2), ("sl", None, -2, None),
+                     ("sl", -n - 3, 2, None), ("cnt",), ("in", L[-1]), ("bef", L[-1] + 1, False), ("btw", L[2], L[-1], True), ("xaf", L[1], None, False), ("take", n + 1)]
+            qs = [part] + rng.sample(kinds, rng.randint(2, 5))
+        elif i % 3 == 0:
             qs = partial_then_len(rng, L) + [rrlib.random_query(rng, L) for _ in range(rng.randint(0, 2))]
         else:
             qs = [rrlib.random_query(rng, L) for _ in range(rng.randint(1, 7))]
@@ -463,12 +476,64 @@ def oracle(ctx):
         judge_threads(ctx, {"rule": kind, "n": n, "L": L, "qs": [list(q) for q in qs], "segs": [list(s) for s in segs], "res": res, "st": st})
     free_running_smoke(ctx)
     generator_raises(ctx)
+    twin_histories(ctx)
     for r in runs:
         if r["kind"] == "threads" and len(r["qs"]) >= 3:
             ctx.sample({"rule": r["rule"], "n": r["n"], "queries": [q_wire(tuple(q)) for q in r["qs"]],
                         "schedule": sched.seg_wire([tuple(s) for s in r["segs"]]), "answers": r["res"], "statuses": r["st"]}, cap=4)
     ctx.sample({"kind": "nexts", "n": 13, "ops": "n1,n0 x14,n1 x14 (the schedule that dead-locked before fix a459cd4)",
                 "out": run_nexts_case("daily", 13, 2, ["n1"] + ["n0"] * 14 + ["n1"] * 14)[1]})
+
+
+def twin_histories(ctx):
+    """cached = uncached along BUILD-and-query histories of a set: the same history of member additions, queries and live iterators
+    (never advanced after a later addition: C10's domain otherwise) on a cached set and on an uncached twin — in particular sets
+    that are fully observed while EMPTY (no member yet, or everything excluded) and then given members, partial fills followed
+    by negative indices / slices, repeated dates, members cut short by year 9999, one uncached rule object in two roles.
+    The generators are C10's (props.c10.gen_history / shaped_history); the model side is C10.history_inv (cache on/off give the
+    same specification)."""
+    import props.c10 as c10
+    rng = ctx.subrng("twins")
+    for i in range(ctx.budget(400, 4000)):
+        mode = "plain" if i % 2 else "live"
+        ops = c10.shaped_history(rng, mode) if i % 3 else c10.gen_history(rng, mode)
+        obs_c, _, _ = c10.run_impl(True, ops)
+        obs_u, _, _ = c10.run_impl(False, ops)
+        ctx.case(("twin", c10.describe(ops)), nontrivial=c10.nontrivial_history(ops, obs_u))
+        ctx.count("twin_histories")
+        for j, (a, b) in enumerate(zip(obs_c, obs_u)):
+            if a != b:
+                table, uses = c10.member_table(ops)
+                ctx.violation("observation %d (%s) of history %s: the cached set gives %s, the uncached twin %s"
+                              % (j, c10.op_wire(ops[j]), c10.describe(ops)[:300], a[:200], b[:200]),
+                              {"kind": "twin", "history": c10.describe(ops), "failing_op": j, "members": table, "member_uses": uses}, None)
+                break
+
+
+class InfraError(Exception):
+    """a wall-clock guard fired: infrastructure (exit 2), never a violation (vlib.is_infra)"""
+    infrastructure = True
+
+
+class hang_guard(object):
+    """an operation on a (possibly modified) implementation that does not return would stall the whole check: after `secs`
+    seconds of wall clock the check stops with an infrastructure error"""
+    def __init__(self, secs, what):
+        self.secs, self.what = secs, what
+
+    def __enter__(self):
+        import signal
+
+        def fire(sig, frm):
+            raise InfraError("no return within %d s: %s" % (self.secs, self.what))
+        self.old = signal.signal(signal.SIGALRM, fire)
+        signal.setitimer(signal.ITIMER_REAL, self.secs)
+
+    def __exit__(self, *a):
+        import signal
+        signal.setitimer(signal.ITIMER_REAL, 0)
+        signal.signal(signal.SIGALRM, self.old)
+        return False
 
 
 class Flaky(object):
@@ -483,17 +548,19 @@ class Flaky(object):
 
 
 def generator_raises(ctx):
-    """the underlying generator RAISES: an uncached rule raises in every operation that reaches the raising point; a cached
-    one must behave the same.  It does not (known finding D-C11-genraise); the Lean model has the raising outcome of
-    line 138 (Cache.step138) and reproduces what the code does: a difference cached/uncached is KNOWN only when the
-    implementation equals the model in BOTH modes (query.runx)."""
+    """the underlying generator RAISES: an uncached rule raises in every operation that reaches the raising point and answers every
+    operation decided before it; a cached one must behave the same (former known finding D-C11-genraise, repaired in /repo:
+    `_restartable` + deferred read-ahead errors).  Regression stream: (1) call histories, cached vs uncached vs the Lean model in both
+    modes (query.runx; C11.genraise_history); (2) the documented witness; (3) statement-granularity thread schedules over a cached set
+    whose member raises, every thread's answer against the uncached one (C11.finished_answer with endErr = some E)."""
     from dateutil import rrule as R
     import datetime as D
     rng = ctx.subrng("genraise")
     cases = []
-    for k in (0, 1, 5, 10, 11, 15):
+    for k in (0, 1, 5, 9, 10, 11, 15, 20, 21):
         L = [7 * i + 3 for i in range(k + 3)]
-        scripts = [[("all",), ("all",), ("all",), ("cnt",), ("in", L[0])], [("idx", min(3, max(0, k - 1))), ("all",), ("all",), ("cnt",), ("idx", 0)]]
+        scripts = [[("all",), ("all",), ("all",), ("cnt",), ("in", L[0])], [("idx", min(3, max(0, k - 1))), ("all",), ("all",), ("cnt",), ("idx", 0)],
+                   [("idx", -1), ("take", k), ("take", k + 1), ("idx", k - 1), ("idx", k)]]
         for _ in range(ctx.budget(2, 12)):
             scripts.append([rrlib.random_query(rng, L[:k]) for _ in range(rng.randint(2, 6))])
         for qs in scripts:
@@ -505,7 +572,8 @@ def generator_raises(ctx):
         for cache in (False, True):
             s = R.rruleset(cache=cache)
             s.rrule(Flaky(L, k))
-            per[cache] = [rrlib.impl_query(s, q).replace(" ", "_") for q in qs]
+            with hang_guard(30, "queries %s on a %s set whose generator raises after %d values" % (";".join(q_wire(q) for q in qs), "cached" if cache else "uncached", k)):
+                per[cache] = [rrlib.impl_query(s, q).replace(" ", "_") for q in qs]
             reqs.append("query.runx %s %d %d %s" % (ilist(L), k, int(cache), ";".join(q_wire(q) for q in qs)))
         outs.append(per)
     try:
@@ -530,24 +598,60 @@ def generator_raises(ctx):
                           % (k, ";".join(q_wire(q) for q in qs), per[False], per[True], m_unc, m_c),
                           {"kind": "genraise-model", "k": k, "qs": [list(q) for q in qs], "model_reproduces": False}, None)
     # the documented witness (a naive and an aware date: TypeError from the sort, k = 0)
-    def outcomes(cache):
-        s = R.rruleset(cache=cache)
-        s.rdate(D.datetime(2020, 1, 1)); s.rdate(D.datetime(2020, 1, 2, tzinfo=D.timezone.utc))
-        out = []
-        for op in (lambda: list(s), lambda: list(s), lambda: list(s), lambda: s.count(), lambda: D.datetime(2020, 1, 1) in s):
-            try:
-                out.append(repr(op()))
-            except Exception as ex:
-                out.append(type(ex).__name__)
-        return out
-    want, gotw = outcomes(False), outcomes(True)
+    want, gotw = genraise_witness(False), genraise_witness(True)
     ctx.case(("generator-raises-witness",), nontrivial=True)
     if gotw != want:
         ctx.violation("witness: the uncached set gives %s on list, list, list, count, in; the cached one gives %s" % (want, gotw),
-                      {"kind": "genraise", "cached": gotw, "uncached": want,
-                       "model_reproduces": gotw == GENRAISE_DOCUMENTED and want == ["TypeError"] * 5}, None)
+                      {"kind": "genraise-witness", "cached": gotw, "uncached": want}, None)
+    # statement-granularity schedules: several threads over ONE cached set whose member raises after k values
+    A = ("all",)
+    tcases = []
+    for k in (0, 1, 9, 10, 11, 21):
+        L = [7 * i + 3 for i in range(k + 3)]
+        for k0 in ([0, 7, 14, 19, 23, 27, 31, 36, 44, 58, 90] if ctx.budget(0, 1) == 0 else range(0, 120, 2)):
+            tcases.append((L, k, [A, A], [(0, k0), (1, None)]))
+        for _ in range(ctx.budget(3, 30)):
+            T = rng.randint(2, 4)
+            qs = [A if rng.random() < 0.4 else rrlib.random_query(rng, L[:k]) for _ in range(T)]
+            segs = [(rng.randrange(T), rng.choice([1, 2, 3, 4, 6, 9, 14, 22, 35, 60])) for _ in range(rng.randint(1, 12))]
+            tcases.append((L, k, qs, segs))
+    for L, k, qs, segs in tcases:
+        with hang_guard(60, "threads %s under schedule %s over a cached set whose generator raises after %d values" % ([q_wire(q) for q in qs], sched.seg_wire(segs), k)):
+            res, st = genraise_threads(L, k, qs, segs)
+        u = R.rruleset(cache=False)
+        u.rrule(Flaky(L, k))
+        want = [rrlib.impl_query(u, q) for q in qs]
+        ctx.case(("genraise-threads", k, tuple(qs), tuple(segs)), nontrivial=True)
+        ctx.count("generator_raises_thread_schedule")
+        if any(x != "done" for x in st) or res != want:
+            ctx.violation("the underlying generator raises after %d values; threads %s under schedule %s: statuses %s, answers %s, the uncached set answers %s"
+                          % (k, [q_wire(q) for q in qs], sched.seg_wire(segs), st, res, want),
+                          {"kind": "genraise-threads", "k": k, "L": L, "qs": [list(q) for q in qs], "segs": [list(x) for x in segs]}, None)
 
 
+def genraise_witness(cache):
+    from dateutil import rrule as R
+    import datetime as D
+    s = R.rruleset(cache=cache)
+    s.rdate(D.datetime(2020, 1, 1)); s.rdate(D.datetime(2020, 1, 2, tzinfo=D.timezone.utc))
+    out = []
+    for op in (lambda: list(s), lambda: list(s), lambda: list(s), lambda: s.count(), lambda: D.datetime(2020, 1, 1) in s):
+        try:
+            out.append(repr(op()))
+        except Exception as ex:
+            out.append(type(ex).__name__)
+    return out
+
+
+def genraise_threads(L, k, qs, segs):
+    from dateutil import rrule as R
+    s = R.rruleset(cache=True)
+    s.rrule(Flaky(L, k))
+    tr, fin, res, st = sched.run_threads(s, qs, segs)
+    return res, st
+
+
+# what the unrepaired code gave on the witness (kept for the record; the regression stream above reports it again)
 GENRAISE_DOCUMENTED = ["TypeError", "TypeError", "[]", "None", "False"]
 
 
@@ -577,11 +681,7 @@ def free_running_smoke(ctx):
         ctx.count("free_running_smoke")
 
 
-KNOWN = {
-    # a cached object differs from the uncached one after the underlying generator raised — accepted only when the implementation
-    # does exactly what the Lean model of the code (raising outcome of line 138) predicts, in both modes
-    "D-C11-genraise": lambda v: v["case"].get("kind") == "genraise" and bool(v["case"].get("model_reproduces")),
-}
+KNOWN = {}
 
 
 def replay(ctx, payload):
@@ -620,5 +720,39 @@ def replay(ctx, payload):
         print("replay nested: %d cached objects, %d distinct lock objects; schedule %s -> statuses %s answers %s"
               % (len(objs), nl, sched.seg_wire(segs), st, res))
         return all(x == "done" for x in st) and all(g == py_query(exp[o], q) for (o, q), g in zip(jobs, res))
+    if c.get("kind") == "twin":
+        import props.c10 as c10
+        ops = c10.parse_history(c["history"], c.get("members"), c.get("member_uses"))
+        obs_c, _, _ = c10.run_impl(True, ops)
+        ops = c10.parse_history(c["history"], c.get("members"), c.get("member_uses"))
+        obs_u, _, _ = c10.run_impl(False, ops)
+        for op, a, b in zip(ops, obs_c, obs_u):
+            if op[0] in ("q", "open", "resume"):
+                print("replay %s: cached=%s uncached=%s" % (c10.op_wire(op), a[:120], b[:120]))
+        return obs_c == obs_u
+    if c.get("kind") in ("genraise", "genraise-model"):
+        from dateutil import rrule as R
+        L = [7 * i + 3 for i in range(c["k"] + 3)]
+        per = {}
+        for cache in (False, True):
+            s = R.rruleset(cache=cache)
+            s.rrule(Flaky(L, c["k"]))
+            per[cache] = [rrlib.impl_query(s, tuple(q)) for q in c["qs"]]
+        print("replay generator raising after %d values, queries %s: uncached %s cached %s" % (c["k"], [q_wire(tuple(q)) for q in c["qs"]], per[False], per[True]))
+        return per[False] == per[True]
+    if c.get("kind") == "genraise-witness":
+        want, got = genraise_witness(False), genraise_witness(True)
+        print("replay witness: uncached %s cached %s" % (want, got))
+        return want == got
+    if c.get("kind") == "genraise-threads":
+        from dateutil import rrule as R
+        qs = [tuple(q) for q in c["qs"]]
+        segs = [tuple(x) for x in c["segs"]]
+        res, st = genraise_threads(c["L"], c["k"], qs, segs)
+        u = R.rruleset(cache=False)
+        u.rrule(Flaky(c["L"], c["k"]))
+        want = [rrlib.impl_query(u, q) for q in qs]
+        print("replay threads over a generator raising after %d values: schedule %s -> statuses %s answers %s, uncached %s" % (c["k"], sched.seg_wire(segs), st, res, want))
+        return all(x == "done" for x in st) and res == want
     print("replay: unsupported case")
     return False
